@@ -87,6 +87,10 @@ Proof. reflexivity. Qed.
 Lemma C02_fact_provider_gate :
   Generated.OovFacts.oov_gate_mask = N.lor Generated.CategoryFacts.NOOOVBOW Generated.CategoryFacts.NOOOVBOW2.
 Proof. vm_compute. reflexivity. Qed.
+(* every feature the extractor looks for was recognised in the source (an unrecognised one is written with its expected
+   value and listed here, so that the other obligations cannot pass by default) *)
+Lemma C02_fact_oov_facts_recognised : Generated.OovFacts.unrecognised = nil.
+Proof. vm_compute. reflexivity. Qed.
 Lemma C02_fact_lattice_loop :
   (Generated.OovFacts.lattice_loop_recognised, Generated.OovFacts.fallback_provider, Generated.OovFacts.lexicon_end_needs_bow)
   = (true, "last"%string, true).
